@@ -16,12 +16,13 @@ RULE = ('all ordered sets of <=2 (T: <=3) trajectories over states {0,1,2} with 
         '(T: 1..5) x lag 1..5 (T: 1..6) x sliding x max_n_states{None,obs,obs+2} x 4 encodings; '
         'plus narrow storage types (int8/uint8/int16) with state ids near their limits and lag given as int/np.int64/np.int32/np.uint8/np.uint64; '
         'large sets of 255..1025 short trajectories (counts straddling powers of two) in both orders and split at every power of two; '
+        'concentrated counts: N copies of one trajectory with N x (length-lag) straddling 2^8 and 2^16 (N up to 70000, length up to 70000), whole and split in halves; '
         'held results: the raw matrices returned by a sequence of calls (lag scan, subsets, repeated call, MSM fits) are all '
         'read only after the last call; state = (trajectory set, lag, sliding, n_states); non-trivial = count matrix with >=1 '
         'counted pair; oracle = double loop over (t,t+lag) inside each trajectory')
 ASSUMPTIONS = ['state alphabet {0,1,2} and lengths <=5 are representative (small-scope hypothesis)',
                '-1 appears only as trailing padding (the only use the property describes)']
-GUARDS = {'many_trajectories': 50, 'held_results': 200, 'narrow_dtype': 100, 'short_traj_lt_lag': 1000, 'nonsliding_differs': 1000, 'padded_rows': 1000,
+GUARDS = {'many_trajectories': 50, 'concentrated_counts': 80, 'held_results': 200, 'narrow_dtype': 100, 'short_traj_lt_lag': 1000, 'nonsliding_differs': 1000, 'padded_rows': 1000,
           'equal_length_rows': 1000}
 
 
@@ -36,13 +37,13 @@ def shards(tier, seed):
     if tier == 'quick':
         S = seqs(4)
         sh = [('pairs', 4, i) for i in range(len(S))] + [('singles', 4, 0)] + [('wide', 0, 0)]
-        sh += [('many', 0, i) for i in range(4)] + [('held', 4, i) for i in range(4)]
+        sh += [('many', 0, i) for i in range(4)] + [('held', 4, i) for i in range(4)] + [('conc', 0, 0)]
     else:
         S5 = seqs(5)
         sh = [('pairs', 5, i) for i in range(len(S5))] + [('singles', 5, 0)]
         S3 = seqs(3)
         sh += [('triples', 3, i) for i in range(len(S3))] + [('wide', 0, 0)]
-        sh += [('many', 0, i) for i in range(4)] + [('held', 5, i) for i in range(16)]
+        sh += [('many', 0, i) for i in range(4)] + [('held', 5, i) for i in range(16)] + [('conc', 0, 0)]
     return sh
 
 
@@ -221,6 +222,41 @@ def check_many(case, ctx):
         ctx.violation('counts:many:raises:%s' % type(e).__name__, case, 'raised %r on %r' % (e, case))
 
 
+CONC = [(255, [0, 0, 1]), (256, [0, 0, 1]), (257, [0, 0, 1]), (1000, [1, 1]), (65535, [0, 0]), (65536, [0, 0]), (65537, [2, 2]),
+        (300, [0] * 300), (257, [1] * 257), (2, [0] * 70000), (70000, [0, 1])]
+
+
+def check_conc(case, ctx):
+    """one entry of the matrix collects more pairs than any single trajectory is long (N copies of one trajectory): the
+    per-entry count must not be held in a type sized by the longest trajectory or by the number of trajectories"""
+    from enspara.msm.transition_matrices import assigns_to_counts
+    from enspara import ra
+    N, tr, lag, sliding, enc = case['N'], case['traj'], case['lag'], case['sliding'], case['enc']
+    ctx.ev()
+    ctx.guard('concentrated_counts')
+    ctx.state(('conc', N, len(tr), tuple(tr[:3]), lag, sliding, enc), nontrivial=True)
+    want = oracle([tr], lag, sliding, 3) * N
+
+    def run(n):
+        if enc == 'padded':
+            a = np.tile(np.array(tr, dtype=int), (n, 1))
+        else:
+            a = ra.RaggedArray(array=np.tile(np.array(tr, dtype=int), n), lengths=[len(tr)] * n)
+        return np.asarray(assigns_to_counts(a, lag_time=lag, max_n_states=3, sliding_window=sliding).toarray()).astype(np.int64)
+    try:
+        got = run(N)
+        if not np.array_equal(got, want):
+            ctx.violation('counts:concentrated:value', case, '%d copies of a %d-frame trajectory: got %r, exact pair count %r' % (
+                N, len(tr), got.tolist(), want.tolist()))
+            return
+        if N >= 2:
+            parts = run(N // 2) + run(N - N // 2)
+            if not np.array_equal(parts, want):
+                ctx.violation('counts:concentrated:additivity', case, 'halves sum to %r, whole %r' % (parts.tolist(), want.tolist()))
+    except Exception as e:
+        ctx.violation('counts:concentrated:raises:%s' % type(e).__name__, case, 'raised %r on N=%d len=%d' % (e, N, len(tr)))
+
+
 def check_held(case, ctx):
     """a sequence of calls whose RAW results are all read only after the last call (a result must not change because
     the routine is called again)"""
@@ -304,6 +340,15 @@ def run_shard(sh, ctx):
                                 check_many(c, ctx)
         ctx.sample(c)
         return
+    if sh[0] == 'conc':
+        for N, tr in CONC:
+            for lag in (1, 2):
+                for sliding in (True, False):
+                    for enc in ('padded', 'ragged_flat'):
+                        c = {'kind': 'conc', 'N': N, 'traj': tr, 'lag': lag, 'sliding': sliding, 'enc': enc}
+                        check_conc(c, ctx)
+        ctx.sample(dict(c, traj=c['traj'][:4]))
+        return
     if sh[0] == 'held':
         S = seqs(sh[1])
         S = [t for t in S if len(t) >= 2]
@@ -342,6 +387,8 @@ def run_shard(sh, ctx):
 def replay(case, ctx):
     if case.get('kind') == 'many':
         check_many(case, ctx)
+    elif case.get('kind') == 'conc':
+        check_conc(case, ctx)
     elif case.get('kind') == 'held':
         check_held(case, ctx)
     elif case.get('kind') == 'wide':
